@@ -629,18 +629,23 @@ fn check_rust_value(ctx: &Ctx, r: &RustValue) -> (Vec<Finding>, String) {
                 if codec::encode(&v) != *b {
                     wrong.push(format!("re-encoding what the schema read gives {}", hex(&codec::encode(&v))));
                 }
+                let mut names_wrong = None;
                 if let Ok(j) = j {
                     if let Some(path) = codec::json_diff(&codec::render(&v), j) {
-                        wrong.push(format!("the schema reads it as {} (first difference at {path})", short_json(&codec::render(&v))));
+                        names_wrong = Some(format!("the schema reads its bytes as {} but Rust renders it as {} (first difference at {path})", short_json(&codec::render(&v)), short_json(j)));
                     }
                 }
-                if wrong.is_empty() {
-                    class = "decodes under the schema to the same value, no residue".to_string();
-                } else {
+                let mut steps = 0;
+                if !wrong.is_empty() {
                     class = "decodes under the schema to something else".to_string();
-                    let mut steps = 0;
                     let who = blame(ctx, r.name, &v, "rust-writer-differs", &mut steps);
                     findings.push(Finding { key: format!("{who}/rust-writer-differs"), what: format!("{} = {}: Rust writes {}; {}", r.name, r.label, hex(b), wrong.join("; ")) });
+                } else if let Some(w) = names_wrong {
+                    class = "same bytes, different names or structure in JSON".to_string();
+                    let who = blame(ctx, r.name, &v, "denotes-different-value", &mut steps);
+                    findings.push(Finding { key: format!("{who}/denotes-different-value"), what: format!("{} = {}: {w}", r.name, r.label) });
+                } else {
+                    class = "decodes under the schema to the same value, no residue".to_string();
                 }
             }
             Err(e) => {
@@ -663,7 +668,17 @@ pub fn run(tier: Tier) -> i32 {
     let rep = Reporter::new("C10", tier);
     let registry = match registry_of(|g| g.register_app::<VerifApp>()) {
         Ok(r) => r,
-        Err(e) => mc_kit::machinery_error(&format!("register_app::<VerifApp>() failed: {e}")),
+        Err(e) => {
+            // no schema at all: type generation itself fails for an app that uses every shipped
+            // capability; nothing else can be checked
+            structural(&rep, "registry", "registry-fails/register_app".into(), format!("TypeGen::register_app::<VerifApp>() cannot produce a registry: {e}"));
+            return rep.finish(
+                "model_checking",
+                json!({"states": 1, "transitions": 1, "traces_validated_against_impl": 1, "evaluations": 1, "distinct_nontrivial": 0, "exhaustive": false,
+                       "rule": "the registry could not be traced; only that fact was established", "samples": [format!("register_app::<VerifApp>() -> {e}")]}),
+                &["no value was enumerated because there is no schema"],
+            );
+        }
     };
     let rows_vec = table();
     let ctx = Ctx { registry: &registry, rows: rows_vec.iter().map(|r| (r.name, r)).collect() };
@@ -898,6 +913,7 @@ pub fn run(tier: Tier) -> i32 {
     }
 
     // (3) the real bridges: operations out, outputs in, views out
+    let flow_cap: u128 = tier.pick(100_000, 1_000_000);
     // widest level sequence whose product fits: this tier's, then (thorough) the quick tier's,
     // then ever narrower ones
     let quick_base = alphabet(Tier::Quick);
@@ -916,7 +932,6 @@ pub fn run(tier: Tier) -> i32 {
         }
         candidates.pop().unwrap()
     };
-    let flow_cap: u128 = tier.pick(100_000, 1_000_000);
     let mut flow_cases: Vec<(usize, Val, Option<Val>, Wire)> = vec![];
     let cap_list = caps();
     let mut flow_info = serde_json::Map::new();
